@@ -310,6 +310,36 @@ def run(ctx):
                 ps = list(all_props([r]))
                 if getattr(r, 'valid', None) != all(p.valid for p in ps):
                     ctx.violation('conjunction', {'text': text}, 'rule %s .valid=%r, declarations %r' % (r.cssText[:40], getattr(r, 'valid', None), [(p.name, p.valid) for p in ps]), KNOWN_PRED)
+    # @font-face: valid iff every declaration is valid and both required descriptors are there - however often
+    for _ in range(60 if quick else 1500):
+        ds = []
+        for _k in range(rng.randrange(0, 6)):
+            ds.append(rng.choice(['font-family:x', 'font-family:y', 'src:url(a.eot)', 'src:local(x), url(a.woff) format("woff")', 'src:bogus!', 'font-weight:bold',
+                                  'font-style:italic', 'font-weight:bogus', 'unicode-range:u+0-7f', 'x-unknown:1']))
+        text = '@font-face{%s} a{left:0}' % ';'.join(ds)
+        ctx.case(('fontface-agg', text))
+        try:
+            sh = cssutils.parseString(text)
+            ff = [r for r in sh.cssRules if r.type == r.FONT_FACE_RULE]
+            if not ff:
+                continue
+            ps = ff[0].style.getProperties(all=True)
+            names_ = {p_.name for p_ in ps}
+            want = all(p_.valid for p_ in ps) and {'font-family', 'src'} <= names_
+            got = (ff[0].valid, sh.valid)
+            # a second declaration of a descriptor added through the DOM
+            ff[0].style.setProperty('src', 'url(b.woff)', replace=False)
+            ps2 = ff[0].style.getProperties(all=True)
+            want2 = all(p_.valid for p_ in ps2) and 'font-family' in {p_.name for p_ in ps2}
+            got2 = ff[0].valid
+        except Exception as e:
+            ctx.violation('raises', {'text': text}, '%s: %s' % (type(e).__name__, e), KNOWN_PRED)
+            continue
+        if got != (want, want):
+            ctx.violation('conjunction', {'text': text}, '@font-face.valid, sheet.valid = %r; declarations %r' % (got, [(p_.name, p_.valid) for p_ in ps]), KNOWN_PRED)
+        elif got2 != want2:
+            ctx.violation('conjunction', {'text': text, 'edit': "setProperty('src', 'url(b.woff)', replace=False)"},
+                          '@font-face.valid = %r; declarations %r' % (got2, [(p_.name, p_.valid) for p_ in ps2]), KNOWN_PRED)
     # ---- correspondence of Model/ValidAgg.v (entry 131): the tree of verdicts of a parsed sheet, flattened
     def enc_decls(st_):
         ps_ = st_.getProperties(all=True)
